@@ -50,7 +50,35 @@ def rand_state(r, adversarial=False):
         for p in st["ins"]:
             if st["files"][p] is not None and r.chance(1, 4):
                 st["files"][p] += "".join(r.choice(fr) for _ in range(1 + r.below(3)))
+        # bytes that are not valid UTF-8 (Latin-1 file names, binary fingerprints): surrogate escapes = the raw bytes 0xff, 0xfe, ...
+        if r.chance(1, 3):
+            k = r.choice(["cmd", "dep", "fp", "out", "in", "name"])
+            hb = "".join(r.choice(HIBYTES) for _ in range(1 + r.below(2)))
+            if k == "cmd":
+                st["cmd"] += hb
+            elif k == "dep":
+                st["deps"].append("d" + hb)
+            elif k == "fp":
+                st["fp"]["k" + r.choice(["", hb])] = "v" + hb
+            elif k == "out":
+                st["outs"].append(("file", "o" + hb))
+            elif k == "name":
+                st["name"] += hb
+            else:
+                st["ins"].append("i" + hb); st["files"]["i" + hb] = "c" + r.choice(["", hb])
     return st
+
+
+HIBYTES = ["\udcff", "\udcfe", "\udcc0", "\udc80", "\udce9", "\udce8"]
+
+
+def swap_hibyte(r, s_):
+    """the same string with ONE byte that is not valid UTF-8 replaced by a different such byte (None if it has none)"""
+    pos = [i for i, c in enumerate(s_) if c in HIBYTES]
+    if not pos:
+        return None
+    i = r.choice(pos)
+    return s_[:i] + r.choice([c for c in HIBYTES if c != s_[i]]) + s_[i + 1:]
 
 
 def line(st, algo, rootid):
@@ -85,6 +113,32 @@ def mutate(r, st):
     kinds = ["name", "cmd", "ins", "outs", "deps", "fp", "multi"]
     if any(c is not None for p, c in st["files"].items() if p in st["ins"]):
         kinds += ["file", "file"]
+    hib = [kk for kk in ("cmd", "name") if any(c in HIBYTES for c in st[kk])] + \
+          (["deps"] if any(c in HIBYTES for d in st["deps"] for c in d) else []) + \
+          (["outs"] if any(c in HIBYTES for _, o in st["outs"] for c in o) else []) + \
+          (["fpv"] if any(c in HIBYTES for v in st["fp"].values() for c in v) else []) + \
+          (["ins"] if any(c in HIBYTES for p in st["ins"] for c in p) else [])
+    if hib and r.chance(1, 2):
+        # two states that differ only INSIDE bytes that are not valid UTF-8
+        k = r.choice(hib)
+        if k in ("cmd", "name"):
+            b[k] = swap_hibyte(r, st[k])
+        elif k == "deps":
+            i = r.choice([i for i, d in enumerate(st["deps"]) if any(c in HIBYTES for c in d)])
+            b["deps"][i] = swap_hibyte(r, st["deps"][i])
+        elif k == "outs":
+            i = r.choice([i for i, (_, o) in enumerate(st["outs"]) if any(c in HIBYTES for c in o)])
+            b["outs"][i] = (st["outs"][i][0], swap_hibyte(r, st["outs"][i][1]))
+        elif k == "fpv":
+            kk = r.choice([kk for kk, v in st["fp"].items() if any(c in HIBYTES for c in v)])
+            b["fp"][kk] = swap_hibyte(r, st["fp"][kk])
+        else:
+            i = r.choice([i for i, p in enumerate(st["ins"]) if any(c in HIBYTES for c in p)])
+            old = st["ins"][i]; new = swap_hibyte(r, old)
+            if new in st["ins"]:
+                b["cmd"] += "q"; return "cmd", b
+            b["ins"][i] = new; b["files"][new] = b["files"].pop(old)
+        return "hibyte:" + k, b
     k = r.choice(kinds)
     if k == "name":
         b["name"] = r.choice([n for n in NAMES if n != st["name"]])
@@ -146,6 +200,10 @@ def collision_pairs():
         ("framing: end marker inside an element", S(outs=[("file", "a\x00\x00\x03")], deps=[]), S(outs=[("file", "a")], deps=[])),
         ("framing: command swallowing the input list", S(cmd="c\x00\x00\x02i\x00\x00\x03"), S(cmd="c", ins=["i"], files={"i": None})),
         ("framing: fingerprint key swallowing the value", S(fp={"k\x00\x00v": ""}), S(fp={"k": "v"})),
+        ("invalid UTF-8 bytes in the command", S(cmd="caf\udce9"), S(cmd="caf\udce8")),
+        ("invalid UTF-8 bytes in an input path", S(ins=["caf\udce9.txt"], files={"caf\udce9.txt": "x"}), S(ins=["caf\udce8.txt"], files={"caf\udce8.txt": "x"})),
+        ("invalid UTF-8 byte vs U+FFFD", S(deps=["d\udcff"]), S(deps=["d\ufffd"])),
+        ("invalid UTF-8 bytes in a fingerprint value", S(fp={"k": "\udcfe"}), S(fp={"k": "\udcff"})),
         ("file content vs file digest", S(ins=["a"], files={"a": "x\x00\x00b\x00\x00\x01"}), S(ins=["a", "b"], files={"a": "x", "b": ""})),
     ]
     path = os.path.join(vlib.VERIF, "corpus", "C09", "pairs.jsonl")
@@ -157,6 +215,44 @@ def collision_pairs():
                     c[k]["outs"] = [tuple(o) for o in c[k]["outs"]]
                 res.append(("corpus:" + c["name"], c["a"], c["b"]))
     return res
+
+
+def build_path(out, h, r, n):
+    """The path a build takes: ONE hashing.TargetHasher for a graph in which a and b list the same input file and b depends on
+    a; the file is rewritten / created / removed between the two key computations (a's command did it).  The key of each target
+    must be the key of its state at the time it is hashed -- the one GetTargetChangeHash gives for that state on its own --
+    whatever was hashed before in the same build (no dependence on scheduling or on the other targets of the build)."""
+    conts = ["hello", "HELLO", "", "x", "xy", None]
+    cases = [("p", "src.txt", "hello", "HELLO", "c"), ("p", "gen.txt", None, "made", "c"), ("p", "gen.txt", "old", None, "c")]
+    for _ in range(n):
+        c1, c2 = r.choice(conts), r.choice(conts)
+        cases.append((r.choice(["p", "p/q", ""]), r.choice(["s.txt", "d/s.txt", "a"]), c1, c2, r.choice(["c", "tr a-z A-Z", ""])))
+    enc = lambda c: "!" if c is None else hx(c)
+    lines, idx = [], []
+    for algo in ALGOS:
+        for pkg, pth, c1, c2, cmd in cases:
+            sa = {"pkg": pkg, "name": "a", "cmd": cmd, "ins": [pth], "files": {pth: c1}, "outs": [], "deps": [], "fp": {}, "multi": False}
+            sb = dict(sa, name="b", files={pth: c2}, deps=["//%s:a=oh1" % pkg])
+            lines += ["build\t%s\t%s\t%s\t%s\t%s\t%s" % (algo, hx(pkg), hx(pth), enc(c1), enc(c2), hx(cmd)), line(sa, algo, "bA"), line(sb, algo, "bB")]
+            idx.append((algo, pkg, pth, c1, c2, cmd))
+    rc, res, err = vlib.run_lines(h, lines)
+    if rc != 0 or len(res) != len(lines):
+        raise RuntimeError("hashkey harness failed on the build path rc=%s %s" % (rc, err[-500:]))
+    bad = 0; changed = 0
+    for k, case in enumerate(idx):
+        got, ka, kb = res[3 * k].split("\t"), res[3 * k + 1].split("\t"), res[3 * k + 2].split("\t")
+        if got[0] != "keys" or ka[0] != "key" or kb[0] != "key":
+            continue
+        changed += case[3] != case[4]
+        if got[1] != ka[1] or got[2] != kb[1]:
+            bad += 1
+            if bad <= 2:
+                out.violation("within one build the key of a target is not the key of its state: target b lists %r whose content is %r when b "
+                              "is hashed (it was %r when target a, which lists it too, was hashed): build gives %s, the state on its own %s" % (
+                                  case[2], case[4], case[3], got[2], kb[1]),
+                              {"algo": case[0], "pkg": case[1], "input": case[2], "content_when_a_hashed": case[3], "content_when_b_hashed": case[4],
+                               "command": case[5], "build_keys": got[1:], "state_keys": [ka[1], kb[1]]})
+    return {"build_path_cases": len(idx), "build_path_cases_with_changed_file": changed, "build_path_disagreements": bad}
 
 
 def run(out, tier):
@@ -269,6 +365,7 @@ def run(out, tier):
                 out.violation("the key depends on the workspace location: %s vs %s" % (res[pos + j], keys[("xxh3", i)]),
                               {"state": states[i], "roots": ["rootA", "another/deeper/rootB"]})
 
+    build_stats = build_path(out, h, r, 60 if tier == "quick" else 1500) if impl_ok else {}
     stats = {"pairs": len(pairs), "equal_expected": 0, "differ_expected": 0, "collisions": 0, "errors": 0}
     nontriv = set()
     samples = []
@@ -308,7 +405,7 @@ def run(out, tier):
                           {"correspondence": "HashKey.encode_def/encode_files vs hashing.GetTargetChangeHash (bytes fed to the hasher)",
                            "state": states[i], "algo": algo, "impl_key": keys[(algo, i)], "model_streams": model[(algo, i)]}, no_input=True)
     out.cov.update({
-        "evaluations": len(states) * (len(ALGOS) if impl_ok else 0) + len(pairs),
+        "evaluations": len(states) * (len(ALGOS) if impl_ok else 0) + len(pairs) + build_stats.get("build_path_cases", 0),
         "distinct_nontrivial": len(nontriv),
         "rule": "random target states (label, command, 0-3 inputs with contents or absent, outputs, dependency contributions incl. "
                 "empty ones, fingerprints, multiplatform flag; every fifth state with separator / NUL / marker bytes inside elements) on "
@@ -318,7 +415,7 @@ def run(out, tier):
         "samples": samples,
         "traces_validated_against_impl": len(states) * len(ALGOS) if impl_ok else 0,
         "byte_stream_mismatches": len(tie_bad),
-        "input_distribution": stats,
+        "input_distribution": dict(stats, **build_stats),
         "inprocess_tie": impl_ok,
     })
     out.assumptions += ["digest functions are idealised as injective and '_'-free (H_inj, H_hex): a collision is judged an encoding "
